@@ -25,7 +25,8 @@ from .. import common, tlc
 BUDGETS = {"quick": dict(VT_NMAIN=2, VT_NLINK=4, VT_NMODS=3, VT_NPARAMS=3),
            "thorough": dict(VT_NMAIN=3, VT_NLINK=5, VT_NMODS=4, VT_NPARAMS=4)}
 M_INVARIANTS = ["GenInL", "LastTokenNeeded", "TxAgrees", "NoLeak"]
-SEED_NAMES = {1: "grammar", 2: "link", 3: "modifiers*", 4: "modifiers+=", 5: "params", 6: "norules"}
+SEED_NAMES = {1: "grammar", 2: "link", 3: "modifiers*", 4: "modifiers+=", 5: "params", 6: "norules",
+              7: "reference+modifiers"}
 
 # tokens used as replacements / soup material: every kind, but not the compound names
 # (A.B, a-b), which a scannerless parser may split differently in foreign positions
@@ -61,6 +62,11 @@ def tlc_generate(tier, dev=""):
         fe, fi = ex.submit(emit), ex.submit(inv)
         re_, ri = fe.result(), fi.result()
     return re_, ri
+
+
+def tlc_invariants(tier, dev):
+    """The invariant run alone, with one deviation clause switched on (vacuity check of the module)."""
+    return tlc.model_check("MC_MetaGrammar", cfg="MC_MetaGrammar.cfg", env=dict(BUDGETS[tier], VT_DEV=dev), timeout=3000)
 
 
 def base_from(res):
@@ -231,8 +237,10 @@ def build_cases(base, rng, tier):
     if quick:
         # deterministic sample: every generated text stays, mutants are thinned by seed
         muts = rng.sample(muts, min(len(muts), 4200))
-    elif len(muts) > 150000:
-        muts = rng.sample(muts, 150000)
+    else:
+        cap = int(os.environ.get("VT_MG_CAP", "250000"))     # thorough: all of them (the cap is a safety net)
+        if len(muts) > cap:
+            muts = rng.sample(muts, cap)
     for kind, toks in muts:
         add(kind, toks)
     for kind, toks in soups(base, rng, 400 if quick else 6000):
